@@ -328,6 +328,11 @@ func (h *PrecedenceHandle) String() string {
 
 // Equal determines whether or not two handles are the same.
 func (h *PrecedenceHandle) Equal(rhs *PrecedenceHandle) bool {
+	// Actions other than SHIFT and REDUCE (i.e., ACCEPT) have no handle.
+	if h == nil || rhs == nil {
+		return h == rhs
+	}
+
 	switch {
 	case h.IsTerminal() && rhs.IsTerminal():
 		return grammar.EqTerminal(*h.Terminal, *rhs.Terminal)
